@@ -4,6 +4,7 @@ import base64
 from lib import crcref, mon
 
 SHARDS = 8
+LEVEL = "fault_enumeration"
 STD = 'ABCDEFGHIJKLMNOPQRSTUVWXYZabcdefghijklmnopqrstuvwxyz0123456789+/'
 URL = 'ABCDEFGHIJKLMNOPQRSTUVWXYZabcdefghijklmnopqrstuvwxyz0123456789-_'
 
